@@ -1,5 +1,372 @@
 //! Translator targets owned by property C12.
-#[allow(unused_imports)]
+//!
+//! `c12bounds` → `Generated/C12Bounds.lean`: the trait-bound lists that decide
+//! whether `unsafe impl Sync for TypedFunc` is justified:
+//!  * supertraits of `trait RegisterableFn` and the bounds on the closure type
+//!    `F` in every `impl RegisterableFn … for F` of `runtime/func.rs` (the impls
+//!    live inside two `macro_rules!` bodies; one entry per macro invocation),
+//!  * `T::Transformed: …` of `Constant::new` (`runtime/items.rs`),
+//!  * `ConstantValue::new<T: …>` and the `Arc<dyn …>` it wraps (`runtime/mod.rs`),
+//!  * `type Transformed: …` of `trait Value` and `impl<T: …> Value for Val<T>`
+//!    (`value/mod.rs`),
+//!  * every `unsafe impl Send/Sync` in those files and `codegen/mod.rs`.
+//! Anything that does not have the expected shape is an extraction failure.
 use super::{Gen, Target};
+use crate::find;
+use proc_macro2::{Delimiter, TokenStream, TokenTree};
+use quote::ToTokens;
+use std::path::Path;
+use syn::visit::Visit;
 
-pub const TARGETS: &[Target] = &[];
+pub const TARGETS: &[Target] = &[("c12bounds", "C12Bounds", c12bounds as Gen)];
+
+fn bound_name(s: &str) -> &'static str {
+    match s.replace(' ', "").as_str() {
+        "Send" => ".send",
+        "Sync" => ".sync",
+        "'static" => ".static",
+        "Clone" => ".clone",
+        "PartialEq" => ".partialEq",
+        _ => ".other",
+    }
+}
+
+fn lean_list(bs: &[String]) -> String {
+    format!(
+        "[{}]",
+        bs.iter().map(|b| bound_name(b)).collect::<Vec<_>>().join(", ")
+    )
+}
+
+fn param_bounds(
+    bounds: &syn::punctuated::Punctuated<syn::TypeParamBound, syn::Token![+]>,
+) -> Vec<String> {
+    bounds.iter().map(|b| b.to_token_stream().to_string()).collect()
+}
+
+/// Split a flat token sequence `A + B + 'c` (up to the first top-level `,` or
+/// the end) into bound texts. `Fn(..) -> R` stays one bound.
+fn split_bounds(toks: &[TokenTree]) -> Vec<String> {
+    let mut out = vec![];
+    let mut cur = String::new();
+    for t in toks {
+        match t {
+            TokenTree::Punct(p) if p.as_char() == '+' => {
+                out.push(std::mem::take(&mut cur));
+            }
+            TokenTree::Punct(p) if p.as_char() == ',' => break,
+            TokenTree::Punct(p) if p.as_char() == '\'' => cur.push('\''),
+            other => {
+                cur.push_str(&other.to_string());
+            }
+        }
+    }
+    if !cur.is_empty() {
+        out.push(cur);
+    }
+    out
+}
+
+/// Inside a `macro_rules!` body: every `impl … RegisterableFn … for F where …
+/// F: <bounds>,` — returns the bounds of `F` for each impl found.
+fn impls_in_tokens(ts: TokenStream, out: &mut Vec<Vec<String>>) -> Result<(), String> {
+    let toks: Vec<TokenTree> = ts.into_iter().collect();
+    let mut i = 0;
+    while i < toks.len() {
+        if let TokenTree::Group(g) = &toks[i] {
+            impls_in_tokens(g.stream(), out)?;
+        }
+        let is_impl = matches!(&toks[i], TokenTree::Ident(id) if id == "impl");
+        if is_impl {
+            // header: up to the next brace group
+            let mut j = i + 1;
+            while j < toks.len()
+                && !matches!(&toks[j], TokenTree::Group(g) if g.delimiter() == Delimiter::Brace)
+            {
+                j += 1;
+            }
+            let header = &toks[i..j.min(toks.len())];
+            let mentions = header
+                .iter()
+                .any(|t| matches!(t, TokenTree::Ident(id) if id == "RegisterableFn"));
+            let for_pos = header
+                .iter()
+                .position(|t| matches!(t, TokenTree::Ident(id) if id == "for"));
+            if mentions {
+                let Some(fp) = for_pos else {
+                    return Err("impl mentioning RegisterableFn without `for`".into());
+                };
+                let TokenTree::Ident(self_ty) = &header[fp + 1] else {
+                    return Err("RegisterableFn impl for a non-identifier type".into());
+                };
+                let self_ty = self_ty.to_string();
+                // where-clause predicates `<self_ty> : bounds ,`
+                let wp = header
+                    .iter()
+                    .position(|t| matches!(t, TokenTree::Ident(id) if id == "where"))
+                    .ok_or("RegisterableFn impl without where clause")?;
+                let mut found = None;
+                let mut k = wp + 1;
+                let mut at_pred_start = true;
+                while k + 1 < header.len() {
+                    if at_pred_start {
+                        if let (TokenTree::Ident(id), TokenTree::Punct(p)) =
+                            (&header[k], &header[k + 1])
+                        {
+                            if *id == self_ty && p.as_char() == ':' {
+                                if found.is_some() {
+                                    return Err(format!(
+                                        "two predicates on {self_ty} in one RegisterableFn impl"
+                                    ));
+                                }
+                                found = Some(split_bounds(&header[k + 2..]));
+                            }
+                        }
+                    }
+                    at_pred_start =
+                        matches!(&header[k], TokenTree::Punct(p) if p.as_char() == ',');
+                    k += 1;
+                }
+                let Some(b) = found else {
+                    return Err(format!(
+                        "RegisterableFn impl: no where-predicate on the self type {self_ty}"
+                    ));
+                };
+                out.push(b);
+            }
+            i = j;
+            continue;
+        }
+        i += 1;
+    }
+    Ok(())
+}
+
+struct UnsafeImpls(Vec<(String, String)>);
+impl<'ast> Visit<'ast> for UnsafeImpls {
+    fn visit_item_impl(&mut self, i: &'ast syn::ItemImpl) {
+        if i.unsafety.is_some() {
+            if let Some((_, p, _)) = &i.trait_ {
+                let tr = p.segments.last().map(|s| s.ident.to_string()).unwrap_or_default();
+                if tr == "Send" || tr == "Sync" {
+                    let ty = match &*i.self_ty {
+                        syn::Type::Path(tp) => tp
+                            .path
+                            .segments
+                            .last()
+                            .map(|s| s.ident.to_string())
+                            .unwrap_or_default(),
+                        other => other.to_token_stream().to_string(),
+                    };
+                    self.0.push((tr, ty));
+                }
+            }
+        }
+        syn::visit::visit_item_impl(self, i);
+    }
+    // do not descend into `#[cfg(test)] mod tests` style modules: they are
+    // separate files here (codegen/tests.rs), which are not scanned
+}
+
+fn ty_name(t: &str) -> &'static str {
+    match t {
+        "TypedFunc" => ".typedFunc",
+        "ModuleData" => ".moduleData",
+        "FunctionDescription" => ".functionDescription",
+        _ => ".other",
+    }
+}
+
+pub fn c12bounds(repo: &Path) -> Result<String, String> {
+    let func = find::parse(repo, "src/runtime/func.rs")?;
+    let items = find::parse(repo, "src/runtime/items.rs")?;
+    let rtmod = find::parse(repo, "src/runtime/mod.rs")?;
+    let value = find::parse(repo, "src/value/mod.rs")?;
+    let codegen = find::parse(repo, "src/codegen/mod.rs")?;
+
+    // 1. trait RegisterableFn: supertraits
+    let mut supers = None;
+    for it in &func.items {
+        if let syn::Item::Trait(t) = it {
+            if t.ident == "RegisterableFn" {
+                supers = Some(param_bounds(&t.supertraits));
+            }
+        }
+    }
+    let supers = supers.ok_or("trait RegisterableFn not found in runtime/func.rs")?;
+
+    // 2. impls: macro bodies × invocations, plus plain impls
+    let mut macro_impls: Vec<(String, Vec<Vec<String>>)> = vec![];
+    let mut impls: Vec<Vec<String>> = vec![];
+    let mut comments = vec![];
+    for it in &func.items {
+        match it {
+            syn::Item::Macro(m) if m.mac.path.is_ident("macro_rules") => {
+                let name = m.ident.as_ref().map(|i| i.to_string()).unwrap_or_default();
+                let mut found = vec![];
+                impls_in_tokens(m.mac.tokens.clone(), &mut found)?;
+                if !found.is_empty() {
+                    macro_impls.push((name, found));
+                }
+            }
+            syn::Item::Macro(m) => {
+                let name = m.mac.path.to_token_stream().to_string().replace(' ', "");
+                if let Some((_, found)) = macro_impls.iter().find(|(n, _)| *n == name) {
+                    for f in found {
+                        impls.push(f.clone());
+                    }
+                    comments.push(name);
+                }
+            }
+            syn::Item::Impl(i) => {
+                let is_reg = i
+                    .trait_
+                    .as_ref()
+                    .and_then(|(_, p, _)| p.segments.last())
+                    .map(|s| s.ident == "RegisterableFn")
+                    .unwrap_or(false);
+                if is_reg {
+                    let mut found = vec![];
+                    impls_in_tokens(i.to_token_stream(), &mut found)?;
+                    if found.is_empty() {
+                        return Err("plain RegisterableFn impl without recognisable bounds".into());
+                    }
+                    impls.extend(found);
+                    comments.push("impl".into());
+                }
+            }
+            _ => {}
+        }
+    }
+    if impls.is_empty() {
+        return Err("no RegisterableFn impl found in runtime/func.rs".into());
+    }
+    // no impl of the trait anywhere else
+    for rel in ["src/runtime/items.rs", "src/runtime/mod.rs", "src/value/mod.rs", "src/codegen/mod.rs", "src/lib.rs"] {
+        let text = std::fs::read_to_string(repo.join(rel)).map_err(|e| format!("{rel}: {e}"))?;
+        for (n, line) in text.lines().enumerate() {
+            let l = line.trim_start();
+            if l.starts_with("impl") && l.contains("RegisterableFn") && l.contains(" for ") {
+                return Err(format!("unexpected RegisterableFn impl at {rel}:{}", n + 1));
+            }
+        }
+    }
+
+    // 3. Constant::new — where `T::Transformed: …`
+    let cnew = find::func(&items, "new", Some("Constant"))?;
+    let mut constant_new: Vec<String> = vec![];
+    if let Some(w) = &cnew.sig.generics.where_clause {
+        for p in &w.predicates {
+            if let syn::WherePredicate::Type(pt) = p {
+                let lhs = pt.bounded_ty.to_token_stream().to_string().replace(' ', "");
+                if lhs == "T::Transformed" {
+                    constant_new.extend(param_bounds(&pt.bounds));
+                }
+            }
+        }
+    }
+
+    // 4. ConstantValue::new<T: …> and the struct's Arc<dyn …>
+    let cvnew = find::func(&rtmod, "new", Some("ConstantValue"))?;
+    let mut cv_new = vec![];
+    for gp in &cvnew.sig.generics.params {
+        if let syn::GenericParam::Type(tp) = gp {
+            cv_new.extend(param_bounds(&tp.bounds));
+        }
+    }
+    if let Some(w) = &cvnew.sig.generics.where_clause {
+        for p in &w.predicates {
+            if let syn::WherePredicate::Type(pt) = p {
+                cv_new.extend(param_bounds(&pt.bounds));
+            }
+        }
+    }
+    let fields = find::struct_fields(&rtmod, "ConstantValue")?;
+    let fty = fields.first().map(|f| f.1.clone()).ok_or("ConstantValue has no field")?;
+    let cv_dyn: Vec<String> = if let Some(rest) = fty.strip_prefix("Arc<dyn") {
+        rest.trim_end_matches('>').split('+').map(|s| s.to_string()).collect()
+    } else {
+        return Err(format!("ConstantValue wraps `{fty}`, expected Arc<dyn …>"));
+    };
+
+    // 5. trait Value { type Transformed: … } and impl<T: …> Value for Val<T>
+    let mut transformed = None;
+    let mut val_impl = None;
+    for it in &value.items {
+        match it {
+            syn::Item::Trait(t) if t.ident == "Value" => {
+                for ti in &t.items {
+                    if let syn::TraitItem::Type(ty) = ti {
+                        if ty.ident == "Transformed" {
+                            transformed = Some(param_bounds(&ty.bounds));
+                        }
+                    }
+                }
+            }
+            syn::Item::Impl(i) => {
+                let is_value = i
+                    .trait_
+                    .as_ref()
+                    .and_then(|(_, p, _)| p.segments.last())
+                    .map(|s| s.ident == "Value")
+                    .unwrap_or(false);
+                let self_ty = i.self_ty.to_token_stream().to_string().replace(' ', "");
+                if is_value && self_ty == "Val<T>" {
+                    let mut b = vec![];
+                    for gp in &i.generics.params {
+                        if let syn::GenericParam::Type(tp) = gp {
+                            if tp.ident == "T" {
+                                b.extend(param_bounds(&tp.bounds));
+                            }
+                        }
+                    }
+                    if let Some(w) = &i.generics.where_clause {
+                        for p in &w.predicates {
+                            if let syn::WherePredicate::Type(pt) = p {
+                                if pt.bounded_ty.to_token_stream().to_string() == "T" {
+                                    b.extend(param_bounds(&pt.bounds));
+                                }
+                            }
+                        }
+                    }
+                    val_impl = Some(b);
+                }
+            }
+            _ => {}
+        }
+    }
+    let transformed = transformed.ok_or("trait Value / type Transformed not found")?;
+    let val_impl = val_impl.ok_or("impl Value for Val<T> not found")?;
+
+    // 6. unsafe impl Send / Sync
+    let mut ui = UnsafeImpls(vec![]);
+    for f in [&func, &items, &rtmod, &value, &codegen] {
+        ui.visit_file(f);
+    }
+    let sends: Vec<&str> = ui.0.iter().filter(|(t, _)| t == "Send").map(|(_, n)| ty_name(n)).collect();
+    let syncs: Vec<&str> = ui.0.iter().filter(|(t, _)| t == "Sync").map(|(_, n)| ty_name(n)).collect();
+
+    let mut s = String::new();
+    s.push_str("/- GENERATED by /verif/extract (target c12bounds) from src/runtime/func.rs, src/runtime/items.rs, src/runtime/mod.rs, src/value/mod.rs, src/codegen/mod.rs — do not edit. -/\nimport RotoV.Model.Conc\nnamespace RotoV.Gen.C12Bounds\nopen RotoV.Conc.Bounds\n\n");
+    s.push_str(&format!(
+        "/-- impls found: {} (from: {}); unsafe impls: {:?} -/\n",
+        impls.len(),
+        comments.join(" "),
+        ui.0
+    ));
+    s.push_str("def facts : Facts where\n");
+    s.push_str(&format!("  registerableFnSuper := {}\n", lean_list(&supers)));
+    s.push_str(&format!(
+        "  registerableFnImpls := [{}]\n",
+        impls.iter().map(|b| lean_list(b)).collect::<Vec<_>>().join(",\n    ")
+    ));
+    s.push_str(&format!("  constantNew := {}\n", lean_list(&constant_new)));
+    s.push_str(&format!("  constantValueNew := {}\n", lean_list(&cv_new)));
+    s.push_str(&format!("  constantValueDyn := {}\n", lean_list(&cv_dyn)));
+    s.push_str(&format!("  valueTransformed := {}\n", lean_list(&transformed)));
+    s.push_str(&format!("  valImpl := {}\n", lean_list(&val_impl)));
+    s.push_str(&format!("  unsafeSend := [{}]\n", sends.join(", ")));
+    s.push_str(&format!("  unsafeSync := [{}]\n", syncs.join(", ")));
+    s.push_str("\nend RotoV.Gen.C12Bounds\n");
+    Ok(s)
+}
